@@ -142,6 +142,15 @@ class IndexChecker:
 			ctx.violation('sub-collection-unusable', f'{self.kind}[{idx!r}] returned a collection whose len()/items raise {type(e).__name__}: {e}', self.w(idx))
 			return
 		ok = len(items) == len(expl) and all(np.array_equal(g, e) and g.dtype == self.dt for g, e in zip(items, expl))
+		if ok and (len(expl) == 0 or self.ctx.evals % 7 == 0):
+			# iterating the sub-collection yields the same signatures as indexing it (an empty selection iterates to nothing)
+			try:
+				it = list(got)
+			except Exception as e:
+				ctx.violation('sub-collection-unusable', f'iterating {self.kind}[{idx!r}] raised {type(e).__name__}: {e}', self.w(idx)); return
+			self.ctx.count('class:sub-collection-iterated' + (':empty' if not expl else ''))
+			if len(it) != len(expl) or not all(np.array_equal(g, e) for g, e in zip(it, expl)):
+				ctx.violation('iteration-differs-from-indexing', f'list({self.kind}[{idx!r}]) has {len(it)} item(s) {[x.tolist() for x in it][:3]}, indexing gives {len(expl)}', self.w(idx)); return
 		if not ok:
 			ctx.violation('wrong-subcollection', f'{self.kind}[{idx!r}] = {[x.tolist() for x in items]} expected {[e.tolist() for e in expl]}', self.w(idx))
 			return
@@ -701,7 +710,7 @@ def run_shard(sh, ctx):
 def finalize(merged, tier, seed, inconclusive):
 	c = merged['counters']
 	for n in ['class:slice', 'class:mask-ndarray', 'class:mask-wrong-length', 'class:intarray:u8', 'class:intarray:i1', 'class:int:np.u8', 'class:int-oob:int',
-	          'class:illtyped', 'class:slice-illtyped', 'class:aliasing', 'held_subcollections_of_a_mutable_parent', 'class:range-object', 'class:range-object-oob', 'class:nested:as-is', 'class:nested-slice', 'class:long-iter', 'class:shared-buffer:array.array', 'class:shared-buffer:__array__', 'long-negative:i1', 'long-negative:i2', 'long-eq:file-vs-file', 'histories', 'op:setslice', 'op:delslice', 'oob_mutations_refused', 'eq:same', 'eq:k', 'eq:prefix', 'eq:elem', 'eq:dtype', 'eq:boundary']:
+	          'class:illtyped', 'class:slice-illtyped', 'class:aliasing', 'held_subcollections_of_a_mutable_parent', 'class:range-object', 'class:range-object-oob', 'class:sub-collection-iterated:empty', 'class:nested:as-is', 'class:nested-slice', 'class:long-iter', 'class:shared-buffer:array.array', 'class:shared-buffer:__array__', 'long-negative:i1', 'long-negative:i2', 'long-eq:file-vs-file', 'histories', 'op:setslice', 'op:delslice', 'oob_mutations_refused', 'eq:same', 'eq:k', 'eq:prefix', 'eq:elem', 'eq:dtype', 'eq:boundary']:
 		if c.get(n, 0) == 0:
 			inconclusive.append(f'class never observed: {n}')
 	return dict(exhaustive=True, exhaustive_note='index-* shards enumerate every int, slice and (for n<=5) mask over the stated ranges for collection lengths 0..7; histories and equality pairs are sampled')
